@@ -199,7 +199,8 @@ Fixpoint nn_nested (c : cfield) : bool :=
 
 (* 5: blank search text; 6: selection paths beyond the engine's parser stack;
    7: nested non-nullable references (each level is compiled twice);
-   8: a filter on a reference field in an aggregate selection *)
+   8: in an aggregate selection, a WHERE filter written on the selected json value (its name is a
+      reference field or only the alias of a selected field) *)
 Definition k5_entity (c : centity) : bool := negb (search_ok c).
 Definition k6_entity (c : centity) : bool := negb (depth_ok c).
 Definition k7_entity (c : centity) : bool := existsb nn_nested (ce_fields c).
@@ -216,7 +217,7 @@ Definition known_C14 (c : c14case) : list Z :=
       match resolve_entity dm q with
       | Some ce => flag 7 (k7_entity ce)
       | None => [] end
-  | CAgg q => flag 5 (search_blank q) ++ flag 8 (ref_filter_on_aggregate q)
+  | CAgg q => flag 5 (search_blank q) ++ flag 8 (value_filter_on_aggregate q)
   | _ => []
   end.
 
